@@ -508,7 +508,7 @@ impl Gen {
         }
     }
     fn stmt(&mut self, sc: &mut Scope, ind: usize, d: u32) {
-        let k = if d == 0 { self.rng.below(6) } else { self.rng.below(24) };
+        let k = if d == 0 { self.rng.below(6) } else { let k = self.rng.below(28); if k >= 24 { 22 } else { k } };
         match k {
             0 | 1 | 2 => {
                 let v = if self.rng.chance(1, 2) || sc.vars.is_empty() { self.fresh("v") } else { self.rng.pick(&sc.vars).clone() };
@@ -729,7 +729,12 @@ impl Gen {
                     self.line(ind, &format!("debug {}", e));
                 }
             }
-            22 if self.rng.chance(1, 3) => {
+            22 if self.rng.chance(1, 2) => {
+                // an expression of any kind in statement position: its value is discarded
+                let e = self.expr(sc, 2);
+                self.line(ind, &e);
+            }
+            22 if self.rng.chance(1, 2) => {
                 // one-line function literal as a statement
                 let p = self.fresh("p");
                 let cap = self.outer_for_nested(sc, None);
@@ -800,6 +805,47 @@ fn gen_capture_program(rng: &mut Rng) -> String {
     }
     s.push_str("f0()\n");
     s
+}
+
+/// Every expression kind in statement position (value discarded) in every kind of block. Oracle as
+/// for every program: well-formed code (in particular every builder bracket closed, equal builder
+/// depths along loop back-edges) or a compile error.
+fn discard_programs() -> Vec<(String, String)> {
+    let exprs: Vec<(&str, &str)> = vec![
+        ("str-interp", "'x{a}y'"), ("str-interp-fmt", "'{a}{a:>5}{a:_^7.2}'"), ("str-nested", "'p{'q{a}'}r'"), ("str-lit", "'lit'"),
+        ("list2", "[a, a]"), ("list1", "[a]"), ("list0", "[]"), ("list-nested", "[[a], 'i{a}', (a, a)]"),
+        ("tuple2", "(a, a)"), ("tuple1", "(a,)"), ("map1", "{k: a}"), ("map0", "{}"), ("map-str", "{k: 'v{a}', l: [a, a]}"),
+        ("range", "a..a"), ("range-incl", "(a..=a)"), ("range-to", "(..a)"), ("range-from", "(a..)"),
+        ("access", "a.b.c"), ("method-call", "a.foo(a)"), ("index", "a[a]"), ("call", "g(a)"), ("call-list", "g(a, [a])"),
+        ("call-str", "g('s{a}')"), ("pipe", "a -> g"), ("add", "a + a"), ("arith", "a * (a - a) % a"), ("neg", "-a"), ("not", "not a"),
+        ("cmp", "a < a"), ("cmp-chain", "a < a <= a"), ("and", "a and a"), ("or-str", "a or 'x{a}'"),
+        ("if-expr", "(if a then 'p{a}' else [a])"), ("if-inline", "if a then 'x{a}'"), ("fn-literal", "(|x| 'q{x}')"),
+        ("id", "a"), ("int", "1"), ("null", "null"), ("size", "size a"), ("nested-parens", "((('z{a}')))"), ("str-concat", "'a{a}' + 'b{a}'"),
+    ];
+    let contexts: Vec<(&str, &str)> = vec![
+        ("main", "a = 1\ng = |x| x\n@E\n@E\na\n"),
+        ("for", "a = 1\ng = |x| x\nfor i in 0..3\n  @E\n  a += 1\na\n"),
+        ("for-last", "a = 1\ng = |x| x\nfor i in 0..3\n  a += 1\n  @E\na\n"),
+        ("while", "a = 1\ng = |x| x\nwhile a < 4\n  @E\n  a += 1\na\n"),
+        ("until", "a = 1\ng = |x| x\nuntil a > 3\n  a += 1\n  @E\na\n"),
+        ("loop", "a = 1\ng = |x| x\nloop\n  @E\n  a += 1\n  if a > 3 then break\n  @E\na\n"),
+        ("if-arms", "a = 1\ng = |x| x\nif a > 5\n  @E\n  a = 2\nelse if a > 0\n  @E\n  a = 3\nelse\n  @E\n  a = 4\na\n"),
+        ("if-arms-last", "a = 1\ng = |x| x\nif a > 0\n  @E\nelse\n  @E\na\n"),
+        ("match", "a = 1\ng = |x| x\nmatch a\n  1 then\n    @E\n    a = 2\n  x then\n    @E\na\n"),
+        ("switch", "a = 1\ng = |x| x\nswitch\n  a > 5 then\n    @E\n  else\n    @E\n    a = 2\na\n"),
+        ("try", "a = 1\ng = |x| x\ntry\n  @E\n  a = 2\n  throw 'e'\ncatch e\n  @E\n  a = 3\nfinally\n  @E\n  a = 4\na\n"),
+        ("function", "g = |x| x\nf = |a, g|\n  @E\n  @E\n  a\nf(1, g)\n"),
+        ("generator", "g = |x| x\nf = |a, g|\n  @E\n  yield a\n  @E\n  yield a\nf(1, g).to_list()\n"),
+        ("fn-loop-try", "g = |x| x\nf = |a, g|\n  for i in 0..2\n    try\n      @E\n      a += 1\n    catch e\n      @E\n    while false\n      @E\n  a\nf(1, g)\n"),
+        ("nested-loops", "a = 1\ng = |x| x\nfor i in 0..2\n  for j in 0..2\n    @E\n    if j == 1 then continue\n    @E\n  @E\na\n"),
+    ];
+    let mut v = vec![];
+    for (cn, ct) in &contexts {
+        for (en, e) in &exprs {
+            v.push((format!("discard-{}:{}", cn, en), ct.replace("@E", e)));
+        }
+    }
+    v
 }
 
 /// A function / generator whose *last* statement is a `return` / `return x` / `break` / `continue` /
@@ -1939,7 +1985,7 @@ fn real_main() -> i32 {
     install_panic_hook();
     let args = Args::parse();
     let mut rep = Report::new("C05", &args);
-    rep.rule = "cases = programs handed to the real compiler (repository scripts, documentation examples, their single-token delete/duplicate/swap neighbours, seeded generated programs, loop x try-block nestings with break/continue/return, functions ending in a nested jump, register-pressure x construct grid, capture-heavy programs (also compiled in two fresh processes each), size-scaled programs at the u8/u16 limits) plus register-allocator histories; every compiled chunk goes through wfChunk and the decoder correspondence, and is compiled again in this process and in a child process; distinct = distinct source texts / histories; non-trivial = chunk with at least 4 instructions, or a history with at least 3 operations".into();
+    rep.rule = "cases = programs handed to the real compiler (repository scripts, documentation examples, their single-token delete/duplicate/swap neighbours, seeded generated programs, loop x try-block nestings with break/continue/return, every expression kind in statement position x every block kind, functions ending in a nested jump, register-pressure x construct grid, capture-heavy programs (also compiled in two fresh processes each), size-scaled programs at the u8/u16 limits) plus register-allocator histories; every compiled chunk goes through wfChunk and the decoder correspondence, and is compiled again in this process and in a child process; distinct = distinct source texts / histories; non-trivial = chunk with at least 4 instructions, or a history with at least 3 operations".into();
     let open: Vec<String> = rep.known_open().iter().filter_map(|e| e.get("id").and_then(|x| x.as_str()).map(|s| s.to_string())).collect();
     let drv = Driver::spawn(&args.driver);
     let worker = Worker::spawn(&["--worker".to_string()]);
@@ -1954,7 +2000,7 @@ fn real_main() -> i32 {
         known_counts: Default::default(),
         programs: 0,
         disagreements_checked: 0,
-        run_budget: if thorough { 32000 } else { 1500 },
+        run_budget: if thorough { 33000 } else { 2200 },
         sampled: vec![],
     };
     let mut rng = Rng::new(args.seed);
@@ -2024,6 +2070,15 @@ fn real_main() -> i32 {
     for i in 0..n_tl {
         let src = gen_try_loop_program(&mut rng);
         cx.submit(&format!("tryloop:{}", i), &src, true);
+    }
+    cx.flush();
+
+    // 2a''. every expression kind in statement position in every kind of block
+    for (label, src) in discard_programs() {
+        let compiled = cx.submit(&label, &src, true);
+        if !compiled {
+            cx.rep.bump("discard=rejected");
+        }
     }
     cx.flush();
 
